@@ -225,6 +225,7 @@ fn write_case(fat: [u16; 4], first: u32, size: u32, offset: u32, cursor: (u32, u
     if mode == Mode::ReadOnly {
         assert!(matches!(r, Err(Error::ReadOnly)), "modes.readonly: write on a read-only handle must fail with ReadOnly");
         assert!(dev.nwrites.get() == 0 && fi.entry.size == size && fi.current_offset == offset, "modes.readonly: refused write changed something");
+        kani::cover!(r.is_err(), "instance reaches its expected outcome");
         return;
     }
     // how many clusters the write needs in total, and whether the volume can supply them
@@ -386,6 +387,8 @@ write_h!(c01_write_middle, F352, 3, 1300, 100, (0, 3), 8, Mode::ReadWriteAppend)
 write_h!(c01_write_block_start_partial, F352, 3, 1300, 512, (512, 5), 100, Mode::ReadWriteAppend);
 write_h!(c01_write_cross_end_midblock, F352, 3, 1300, 300, (0, 3), 600, Mode::ReadWriteAppend);
 write_h!(c01_write_full_block, F352, 3, 1536, 512, (0, 3), 512, Mode::ReadWriteTruncate);
+// crosses a block boundary and ends mid-way through the file's LAST block, before EOF
+write_h!(c01_write_cross_end_in_last_block, F35, 3, 1000, 300, (0, 3), 500, Mode::ReadWriteAppend);
 write_h!(c01_write_extend_one, F35, 3, 1024, 1024, (512, 5), 10, Mode::ReadWriteAppend);
 write_h!(c01_write_extend_stale_cursor, F352, 3, 1536, 1536, (0, 3), 4, Mode::ReadWriteAppend);
 write_h!(c01_write_extend_within_cluster, F35, 3, 700, 700, (512, 5), 100, Mode::ReadWriteAppend);
